@@ -202,7 +202,7 @@ func (g *gen) encTicketPart(now time.Time, et int32) kmsg.EncTicketPart {
 func opsTasks(t *testing.T, r *vh.Run, add func(func())) {
 	per := 4
 	if vh.Thorough() {
-		per = 40
+		per = 120
 	}
 	for _, et := range kcrypto.Etypes {
 		for i := 0; i < per; i++ {
@@ -776,7 +776,7 @@ func flagTasks(r *vh.Run, add func(func())) {
 		rnd := vh.NewRand("c13flagmasks")
 		nm := 60
 		if vh.Thorough() {
-			nm = 2000
+			nm = 8000
 		}
 		for k := 0; k < nm; k++ {
 			mask := uint32(rnd.U64())
